@@ -32,6 +32,7 @@ pub fn run_property(id: &str, tier: Tier) -> i32 {
         "C15" => props::c15::run(tier),
         "C16" => props::c16::run(tier),
         "C17" => props::c17::run(tier),
+        "C18" => props::c18::run(tier),
         "C19" => props::c19::run(tier),
         _ => {
             eprintln!("unknown property {id}");
